@@ -125,7 +125,7 @@ theorem refund_verdict {s : State} {id : PoolId} {p : Pool} (hi : Inv s) (hp : g
     · rw [hu] at h; cases h
     · rw [hu] at h; cases h
       right; right; exact ⟨w, by rw [hr]⟩
-  · obtain ⟨c1, hg1, _, _, _, hcre, _, _, _⟩ := core_refunded hi.core hp hu
+  · obtain ⟨c1, hg1, _, _, _, hcre, _, _, _⟩ := core_refunded hi.core hp hact hu
     have hgap0 := (moduleAccount_iff s).mp hi.modacc
     rcases hr with ⟨_, hr⟩ | ⟨_, e, hs, hr⟩ | ⟨_, s2, hs, hr⟩
     · right; left; rw [hr]
